@@ -143,7 +143,7 @@ def directed(prop):
                                  {"op": "originate", "i": "t1"}, {"op": "receive", "f": "n4", "t": "n3", "i": "t1"},
                                  {"op": "forge", "b": "n3", "t": "n2", "i": "t1", "v": "n1", "menu": menu},
                                  {"op": "receive", "f": "n3", "t": "n2", "i": "t1"}]))
-        for menu in range(1, 7):
+        for menu in range(1, 8):
             out.append(dict(nodes=NODES[3], peers=tri, bad=["n3"], items=one, drain=True, profile="one",
                             ops=[{"op": "originate", "i": "v1"}, {"op": "receive", "f": "n1", "t": "n3", "i": "v1"},
                                  {"op": "forge", "b": "n3", "t": "n2", "i": "v1", "v": "n2", "menu": menu},
